@@ -95,7 +95,7 @@ type c05Stream struct{}
 func (c05Stream) Name() string               { return "c05" }
 func (c05Stream) CaseTimeout() time.Duration { return 60 * time.Second }
 func (c05Stream) Rule() string {
-	return "one real server, one client connection (plain / TLS listener / StartTLS-upgraded), N pipelined search requests (N 2..400) whose handlers rendezvous and then each write K entries of S bytes (S from 10 bytes to 1 MiB, i.e. far beyond the 4 KiB write buffer) plus a SearchDone, with fast or slow readers and GOMAXPROCS 1..16; in one case of eight the client sends its searches and an Unbind and starts reading 300 ms later (every frame must still arrive before the hang-up); in one case of six the client keeps the pipeline full and Stop is called after the third frame (then every frame up to the hang-up must still be whole and in per-writer order, the notice of disconnection included); oracle: the received stream splits into whole LDAPMessages, exactly one per successful Write, per-writer order preserved, nothing duplicated or lost; the hook trace (locked/written/flushed/unlock) is replayed through the Lean writer model; non-trivial = N >= 2 writers overlapping in time, distinct by scenario"
+	return "one real server, one client connection (plain / TLS listener / StartTLS-upgraded), N pipelined search requests (N 2..400) whose handlers rendezvous and then each write K entries of S bytes (S from 10 bytes to 1 MiB, i.e. far beyond the 4 KiB write buffer) plus a SearchDone, with fast or slow readers and GOMAXPROCS 1..16; in one case of four one search stays open for 1.5 s after its entries (they must arrive without waiting for its SearchDone); in one case of eight the client sends its searches and an Unbind and starts reading 300 ms later (every frame must still arrive before the hang-up); in one case of six the client keeps the pipeline full and Stop is called after the third frame (then every frame up to the hang-up must still be whole and in per-writer order, the notice of disconnection included); oracle: the received stream splits into whole LDAPMessages, exactly one per successful Write, per-writer order preserved, nothing duplicated or lost; the hook trace (locked/written/flushed/unlock) is replayed through the Lean writer model; non-trivial = N >= 2 writers overlapping in time, distinct by scenario"
 }
 
 func (c05Stream) Generate(rng *rand.Rand, n int, thorough bool) []Case {
@@ -127,8 +127,8 @@ func (c05Stream) Generate(rng *rand.Rand, n int, thorough bool) []Case {
 				[]int{1000, 5000, 20000}[rng.Intn(3)], modes[rng.Intn(4)], []int{2, 4, 16}[rng.Intn(3)]), Kind: "stop"})
 			continue
 		}
-		cs = append(cs, Case{Line: fmt.Sprintf("c05 n=%d k=%d size=%d mode=%s slow=%d procs=%d", w, k, size, modes[rng.Intn(4)],
-			rng.Intn(3)/2, []int{1, 2, 4, 16}[rng.Intn(4)]), Kind: "writers"})
+		cs = append(cs, Case{Line: fmt.Sprintf("c05 n=%d k=%d size=%d mode=%s slow=%d procs=%d nodone=%d", w, k, size, modes[rng.Intn(4)],
+			rng.Intn(3)/2, []int{1, 2, 4, 16}[rng.Intn(4)], rng.Intn(4)/3), Kind: "writers"})
 	}
 	return cs
 }
@@ -161,6 +161,11 @@ func (c05Stream) Impl(c Case) string {
 				wrote[m.GetID()]++
 				wmu.Unlock()
 			}
+		}
+		if p["nodone"] == "1" && m.GetID() == 100 {
+			// this search stays open: its entries were written successfully and must reach the client all the same;
+			// it finishes last of all, long after the others
+			time.Sleep(1500 * time.Millisecond)
 		}
 		_ = w.Write(r.NewSearchDoneResponse(gldap.WithResponseCode(gldap.ResultSuccess)))
 	})
@@ -202,7 +207,20 @@ func (c05Stream) Impl(c Case) string {
 	if p["unbind"] == "1" {
 		time.Sleep(300 * time.Millisecond)
 	}
+	lateCheck := false
 	for stopMode || done < n {
+		if p["nodone"] == "1" && !stopMode && done == n-1 && !lateCheck {
+			// every other search is finished; the open one's entries must all be here by now (its handler sleeps)
+			lateCheck = true
+			if next[100] != k {
+				f, err := cl.readFrame(700 * time.Millisecond)
+				if err != nil {
+					verdict = fmt.Sprintf("writer 100: %d of %d entries written successfully have not arrived although nothing else is being sent (they sit in the server's buffer)", k-next[100], k)
+					break
+				}
+				cl.buf = append(f, cl.buf...)
+			}
+		}
 		to := 30 * time.Second
 		if stopMode {
 			to = 8 * time.Second
